@@ -50,16 +50,10 @@ class GeneralJC69(SubstitutionModel):
 
     def p_t(self, branch_lengths: torch.Tensor) -> torch.Tensor:
         d = torch.unsqueeze(branch_lengths, -1)
-        a = 1.0 / self.state_count + (
-            self.state_count - 1.0
-        ) / self.state_count * torch.exp(
-            -self.state_count / (self.state_count - 1.0) * d
-        )
-        b = (
-            1.0 / self.state_count
-            - torch.exp(-self.state_count / (self.state_count - 1.0) * d)
-            / self.state_count
-        )
+        # expm1: no cancellation for very short branches
+        e = torch.expm1(-self.state_count / (self.state_count - 1.0) * d)
+        a = 1.0 + (self.state_count - 1.0) / self.state_count * e
+        b = -e / self.state_count
         P = b.unsqueeze(-1).repeat(
             (1,) * branch_lengths.dim() + (self.state_count, self.state_count)
         )
